@@ -55,6 +55,20 @@ pub(crate) fn compute_seed_hash(seed: u64) -> u16 {
     seed_hash
 }
 
+/// Like [`compute_seed_hash`], but returns `None` for a seed whose hash is zero instead of
+/// panicking (such a seed cannot be used with sketches that store a seed hash).
+pub(crate) fn try_compute_seed_hash(seed: u64) -> Option<u16> {
+    use std::hash::Hasher;
+
+    let mut hasher = MurmurHash3X64128::with_seed(0);
+    hasher.write(&seed.to_le_bytes());
+    let (h1, _) = hasher.finish128();
+    match (h1 & 0xffff) as u16 {
+        0 => None,
+        seed_hash => Some(seed_hash),
+    }
+}
+
 /// Reads an u64 from a byte slice in little-endian order.
 ///
 /// # Panics
